@@ -184,8 +184,15 @@ func c11Case(w *core.W, j int) {
 	if j%6 == 5 {
 		// a response that reports a TSIG error other than BADKEY/BADSIG (unsigned by RFC 8945) and
 		// BADTIME (carries other data) is signed like any other message
-		te := []uint16{22, 9, 21, 23, 1, 4095}[(j/6)%6]
+		te := []uint16{22, 9, 21, 23, 1, 4095, 18}[(j/6)%7]
 		m.Extra[len(m.Extra)-1].(*dns.TSIG).Error = te
+		if te == 18 {
+			// BADTIME: the response carries the server's clock as other data (RFC 8945 s.5.2.3); it is
+			// signed and judged - window included - like any other message
+			ts := m.Extra[len(m.Extra)-1].(*dns.TSIG)
+			ts.OtherLen = 6
+			ts.OtherData = fmt.Sprintf("%012x", signedAt+100000)
+		}
 		wit["tsig_error"] = te
 		w.Cover("tsig_error_field", fmt.Sprint(te))
 	}
